@@ -203,6 +203,14 @@ func genSpec(r *hxlib.Run, rng *rand.Rand, kind string) Spec {
 					op.Lvl = s.Glob + rng.Intn(7-s.Glob)
 				}
 				prog = append(prog, op)
+				// twin: the same message again at another severity (another call site): must NOT be merged
+				if rng.Intn(8) == 0 {
+					tw := op
+					tw.Lvl = 1 + (op.Lvl+rng.Intn(5))%6
+					if tw.Lvl != op.Lvl {
+						prog = append(prog, tw)
+					}
+				}
 			}
 		}
 		s.Prods = append(s.Prods, prog)
